@@ -46,6 +46,7 @@ import Pumpkin.Model.SemMin
 import Pumpkin.Model.RecMin
 import Pumpkin.Model.Propagation
 import Pumpkin.Model.Search
+import Pumpkin.Model.Narrow
 import Pumpkin.Check.Rup
 import Pumpkin.Check.MaxSat
 import Pumpkin.Check.DrcpCheck
@@ -232,17 +233,20 @@ def showOutcome : Pumpkin.Pg.Outcome → String
   | .out => "no-answer(state-mismatch-or-script-exhausted)"
 
 def nlJudge (st : St) (root : Option (List (List Int))) (script : List (List (List Int) × Atom)) (answer : Option (List Int)) : String :=
-  match Pumpkin.Pg.compileAll st.model.doms st.model.cons, Pumpkin.Pg.rootFix st.model.doms st.model.cons with
-  | some ps, some (some d0) =>
-    if (match root with | some r => !domsEqB r d0 | none => false) then s!"FAIL nlsearch CORR root real={showDoms (root.getD [])} model={showDoms d0}"
-    else
-      let out := Pumpkin.Pg.search ps scriptStrat (script.length + 2) script d0 []
+  -- the root state the real solver was in at its first decision
+  match root, Pumpkin.Pg.rootFix st.model.doms st.model.cons with
+  | some r, some (some d0) =>
+    if !domsEqB r d0 then s!"FAIL nlsearch CORR root real={showDoms r} model={showDoms d0}" else run
+  | _, _ => run
+where
+  run : String :=
+    -- `solveNL` is the function `solveNL_unsat_sound` / `solveNL_sat_sound` are about
+    match Pumpkin.Pg.solveNL st.model scriptStrat (script.length + 2) script with
+    | none => "ok nlsearch not-modelled"
+    | some out =>
       let expected : Pumpkin.Pg.Outcome := match answer with | some a => .sat a | none => .unsat
       if out == expected then s!"ok nlsearch exact decisions={script.length}"
       else s!"FAIL nlsearch CORR real={showOutcome expected} model={showOutcome out} decisions={script.length}"
-  | some _, some none =>
-    if script.isEmpty && answer.isNone then "ok nlsearch root-conflict" else "FAIL nlsearch CORR model-root-conflict"
-  | _, _ => "ok nlsearch not-modelled"
 
 def applyAtom (d : List (List Int)) (p : Atom) : List (List Int) := Pumpkin.AtomRup.assume d p
 
